@@ -26,6 +26,52 @@ CLAIMED = {
          "Trusts the harness model (Vec<bool>) and the decoders; worker processes isolate aborting cases; the checked profile (debug assertions => std ub_checks) turns out-of-bounds get_unchecked into an abort that is reported as a violation."),
 }
 
+
+CLAIMED.update({
+ "C07": ("property testing of builder configurations: generated (type-table row, key set, values, configuration[, second configuration]) plus enumeration of every n<=130 on every row; oracle = the input pairs; deterministic attempt bound instead of a clock",
+         "Generated-input search over a 20-row table of concrete builder types (5 key types x 5 value words x 2 backends x 64/128-bit signatures x the 5 shard/edge logics), every n in 0..=130 per row, thousands of random configurations (offline, low_mem, threads, eps, buckets, seed, expected_num_keys absent/exact/inexact/in another sharding regime, check_dups) with n<=3000, and sizes around the 100k/200k/400k/800k/1.7M regime switches; every supplied pair is verified through get (and get_unaligned where admissible), and a second configuration must give a function that also verifies. Exploration level.",
+         "Thread schedules of the parallel solver are not controlled (varied only through the thread count); termination is decided by a deterministic bound on source rewinds (generous where attempts are cheap), a wall-clock watchdog only yields 'inconclusive'."),
+ "C08": ("property testing of filter builds with a statistical oracle for the false-positive rate (7-sigma binomial band, two-sided when the expectation is >= 50)",
+         "Generated-input search over the same type table and configurations as C07 with hash widths b in {1,2,3,5,7,8,9,12,16,31,32,33,63,64}: every inserted key must be found by contains and Index, len/hash_bits checked, contains_unaligned where admissible; non-members from a structurally disjoint family are probed (2*10^4 to 2*10^5 per filter) and the positive count must lie within N 2^-b +- (7 sigma + 4). Exploration level; the rate check decides 'grossly wrong vs plausible'.",
+         "The rate is a statistical statement: the tolerance keeps the per-run false-alarm probability negligible while a rate off by a factor 2 for b<=12 is far outside."),
+ "C09": ("round-trip and lookup property testing of rear-coded lists against the Vec<String> they were built from",
+         "Generated-input search over block sizes, prefix-family string lists over six alphabets (multi-byte UTF-8, lengths around 127..130, thorough: suffixes >= 16512 bytes), sorted/reversed/duplicated/unsorted order, push or extend; len, get, get_in_place, iter/lend/into_lender, iter_from/lend_from/into_iter_from at every start with exact hints, index_of/contains for present, absent, prefix, extension and in-between probes. Exploration level.",
+         "Trusts the Vec<String> oracle; strings never contain NUL (documented precondition)."),
+ "C10": ("differential property testing of bulk operations against element-wise loops, with a completely enumerated sub-domain for copy",
+         "Generated-input search over six word types: copy vs element loop (plus the complete enumeration of u8/u16, all widths, 24-element vectors, every (from,to,len)), apply_in_place with a recording closure on fresh and spare-word vectors, reset variants, BitVec fill/flip/reset/count and parallel and atomic twins, try_chunks_mut views (read and write), get_unaligned vs get. Exploration level with one exhaustively enumerated finite sub-domain.",
+         "Width 0 is excluded for apply_in_place (defined through set(), undefined at width 0) and try_chunks_mut at width 0 is an open known finding."),
+ "C11": ("generated-input search over sizes with mem_size as the observation: built structures plus a formula sweep through the public ShardEdge API at every n below 300000",
+         "Rank9/RankSmall/Select9 overheads, Elias-Fano bits per element over (n,u) classes, exact word counts of plain vectors, built functions and filters on the 20-row type table, and num_vertices x num_shards of all six logics for every n < 300000 (thorough 2000000) and log-uniform n up to 10^12 at both extreme admissible maximum shards, all against the documented bounds with an additive slack of a few words/three segments per shard. Exploration level (the per-n sweep is complete below its limit).",
+         "Bounds are read as 'documented fraction + additive constant'; MWHC logics are held to their own documented 1.23*1.01 n."),
+ "C12": ("op-sequence fuzzing of an explicit menu of safe methods with whole-domain arguments; oracle = process outcome under instrumented builds (std ub_checks; AddressSanitizer in the thorough tier)",
+         "Generated op sequences over BitVec/AtomicBitVec, BitFieldVec, every rank/select stack, Elias-Fano, rear-coded lists, functions/filters over 0, 1 and more keys queried with never-inserted keys, SliceSeq, Modulo2System::check; arguments len, len+-1, 2^32, 2^63, usize::MAX, random. A worker death (ub_checks abort, ASan report, signal) is the violation; answers and unwinding panics are accepted. Exploration level.",
+         "Only the listed menu is covered; reads inside an allocation but outside the logical slice that do not go through get_unchecked are invisible to both instruments."),
+ "C13": ("schedule enumeration: the harness serialises writer threads at the sched_point() hook and enumerates (stateless DFS) or samples the interleavings of their atomic operations; invariants over the final state and swap linearisability by brute force",
+         "For generated configurations (word type, width, 2-3 writers, 1-2 writes each to distinct indices around a word boundary, initial contents, orderings; bit-vector set/swap programs; concurrent Elias-Fano builder partitions) all interleavings are executed when the tree is small, otherwise thousands of random schedules; after join every element must hold its writer's value or its initial value, swap results must be explained by a sequential order, the concurrent builder must equal the sequential one byte for byte. Exploration of schedules; exhaustive per small configuration.",
+         "Granularity = hooked atomic operations, sequentially consistent; weaker hardware orderings are out of reach. Real-thread stress is auxiliary."),
+ "C14": ("metamorphic/differential property testing over dirty storage: reads must agree with a clean twin, writes are checked against a bit-exact backend snapshot",
+         "Generated vectors placed by from_raw_parts over storage whose bits beyond len*width (last word and 0-3 extra words) are garbage; all read operations compared with the logical contents; after every mutator the whole backend must equal model bits inside the logical region and the original garbage outside. Exploration level.",
+         "Trusts the bit-exact model of the backend layout (little-endian fields packed from bit 0)."),
+ "C15": ("round-trip property testing through every loading path with a shared generic observation function",
+         "Generated instances of ~60 serialisable types are serialised (serialize and serialize_with_schema must write the same bytes) and loaded back by deserialize_full, deserialize_eps, mmap, load_mem, load_mmap and load_full; the same observation function (hundreds of queries incl. out-of-range ones) runs on the original and on each loaded value and the answer vectors must be identical. Exploration level.",
+         "SelectSmall/SelectZeroSmall do not implement Select/SelectZero for their zero-copy forms (a compile-time limitation, see DESIGN.md): their select queries are compared on the full-copy paths only."),
+ "C16": ("validity-predicate property testing of the public ShardEdge API over generated (n, eps, max shard, signature) tuples",
+         "For the six logics: n from boundary classes up to 10^12, four eps values, three admissible maximum shards and 64 signatures with extreme words; vertices distinct, in range, inside the shard slice, equal to the local edge plus shard base, sort keys in range, shard == high bits, determinism across calls, Copy and epsilon-serde. Exploration level.",
+         "Capacity assertions beyond the documented ranges are discarded (counted)."),
+ "C17": ("fault enumeration: harness-owned rewindable lenders with fault plans, enumerated completely for small key sets, plus generated duplicate plans",
+         "All (stream, pass, item) and rewind fault positions for 6 builder types x 8 small sizes, with and without a duplicate that forces three retry passes, plus random faults/duplicates up to 3000 keys and duplicates in 10^5-key sets; a reached fault must come back as the returned error, duplicates with check_dups must give an error within the attempt bound, anything else must be Ok and verify; Ok with a wrong pair is always a violation.",
+         "Faults are injected at the lender interface (RewindableIoLender), not inside the signature store's file I/O."),
+ "C18": ("multiset-equality property testing of the signature store against a hash multiset, online and offline",
+         "Generated multisets (skewed high bits, duplicates) x (bucket bits, max shard bits, shard bits) x two signature and four value types x online/offline; number of shards, shard_sizes, home shard of every pair and multiset equality for two borrowed iterations and the consuming one. Exploration level.",
+         "Offline stores are limited to 2^5 buckets per case."),
+ "C19": ("differential property testing of both GF(2) solvers against an independent dense Gauss-Jordan oracle, with an exhaustively enumerated small sub-domain",
+         "Generated systems over five word types in seven shapes (planted, contradictory, repeated, rank-deficient, 3-uniform, fuse-like, arbitrary) plus all 41371 systems with 3 variables, <=4 equations and 1-bit constants; Ok iff solvable, solutions verified by the harness' evaluator and by check(). Exploration level with one exhaustive sub-domain.",
+         "Trusts the harness' Gauss-Jordan oracle."),
+ "C20": ("history-based property testing of rewindable lenders: generated inputs and Next/Rewind histories against the harness' own line splitter",
+         "Ten lender kinds (plain/zstd/gzip line lenders over cursors and files, small-buffer readers, FromIntoIterator) with optional take(m), inputs with CR/LF/CRLF corner cases and lines longer than the reader's buffer, histories with up to 7 rewinds; every item of every pass compared. Exploration level. One open known finding (Take) is excluded by construction and re-checked on every run.",
+         "Compression in the harness uses the zstd/flate2 crates the library itself depends on."),
+})
+
 ALL = [json.loads(l)["id"] for l in open(os.path.join(V, "properties.jsonl"))]
 checks = []
 for pid in ALL:
@@ -50,7 +96,7 @@ m = {
   "guard": "--cfg vigna_sux_rs_verif",
   "enable": "harness/.cargo/config.toml passes rustflags --cfg vigna_sux_rs_verif (and -C target-cpu=native, as /repo/.cargo/config.toml does); sux is a path dependency on /repo, so every check rebuilds from /repo's working tree",
   "baseline_off_cmd": "cd /repo && cargo test --workspace --no-fail-fast --offline",
-  "source_commits": [],
+  "source_commits": ["e884b22"],
   "add_only": True,
  },
  "engines": [
@@ -58,7 +104,7 @@ m = {
    "kind_free_text": "own property-based-testing engine (Rust): seeded byte-string cases decoded with arbitrary::Unstructured, parent/worker process isolation, failure classification (mismatch / panic / no-panic / abort / nonconv), byte-level shrinking, replay files; driven by ./check (python3)"},
  ],
  "checks": checks,
- "notes": "Exit codes of ./check: 0 held, 1 violation (VIOLATION line), 2 inconclusive (build failure, watchdog, OOM). VERIF_SEED / VERIF_TIER honoured. known_findings.json lists open findings (none suppress anything outside their exact predicate) and fixed ones.",
+ "notes": "Genuine defects found were repaired in /repo by separate 'fix:' commits (listed under \"fixed\" in known_findings.json); three are recorded as open known findings. Exit codes of ./check: 0 held, 1 violation (VIOLATION line), 2 inconclusive (build failure, watchdog, OOM). VERIF_SEED / VERIF_TIER honoured. known_findings.json lists open findings (none suppress anything outside their exact predicate) and fixed ones.",
  "not_applicable": [{"property_id": p, "reason": "check not built yet in this revision of /verif (work in progress, see DESIGN.md section 2 for the planned check)"} for p in ALL if p not in CLAIMED],
 }
 json.dump(m, open(os.path.join(V, "MANIFEST.json"), "w"), indent=1)
